@@ -108,6 +108,57 @@ func (s *Sim) mutateConf() *ConfSpec {
 			}
 		}
 	}
+	// directed: the maximum of a queue in use is lowered below what it uses (quota change preemption has work)
+	if s.pf.QuotaPreempt && s.post != nil && r.Bool(0.3) {
+		var busy []string
+		for _, path := range sortedKeys(s.post.Queues) {
+			if q := s.post.Queues[path]; path != "root" && c.Find(path) != nil && (q.Alloc["vcore"] > 1 || q.Alloc["memory"] > 1) {
+				busy = append(busy, path)
+			}
+		}
+		if len(busy) > 0 {
+			path := pick(r, busy)
+			q := c.Find(path)
+			use := s.post.Queues[path].Alloc
+			if q.Max == nil {
+				q.Max = Res{}
+			}
+			for _, t := range []string{"vcore", "memory"} {
+				if use[t] > 1 && r.Bool(0.7) {
+					q.Max[t] = use[t] - int64(r.Range(1, int(use[t])-1))
+				}
+			}
+			// what lies below must stay inside
+			var clamp func(x *QSpec)
+			clamp = func(x *QSpec) {
+				for _, ch := range x.Children {
+					for t, v := range ch.Max {
+						if m, ok := q.Max[t]; ok && v > m {
+							ch.Max[t] = m
+						}
+					}
+					for t, v := range ch.Guar {
+						if m, ok := q.Max[t]; ok && v > m {
+							ch.Guar[t] = m
+						}
+					}
+					clamp(ch)
+				}
+			}
+			clamp(q)
+			for t, v := range q.Guar {
+				if m, ok := q.Max[t]; ok && v > m {
+					q.Guar[t] = m
+				}
+			}
+			if q.Props == nil {
+				q.Props = map[string]string{}
+			}
+			q.Props["quota.preemption.delay"] = pick(r, []string{"1s", "1s", "10s"})
+			s.probe("directed_lower_max_below_usage")
+			n = 0
+		}
+	}
 	// directed: an existing maximum gains (or loses) one explicit zero and changes in nothing else
 	if r.Bool(0.12) {
 		var withMax []string
